@@ -334,14 +334,15 @@ class FakeServer:
     server_close() joins the handler threads (ThreadingMixIn.block_on_close)"""
 
     def __init__(self, port=None):
-        _park('mkserver')
+        w = _CUR['world']
+        self.kind = 'https' if (w.https_port is not None and port == w.https_port) else 'http'
+        self.sfx = '2' if self.kind == 'https' else ''
+        _park('mkserver' + self.sfx)
         self.accepting = True
         self.closed = False
         self.listener = None
         self.socket = object()
         self._shut = threading.Event()
-        w = _CUR['world']
-        self.kind = 'https' if (w.https_port is not None and port == w.https_port) else 'http'
         w.servers.append(self)
         w.cur[self.kind] = self
 
@@ -349,14 +350,14 @@ class FakeServer:
         self._shut.wait()
 
     def shutdown(self):
-        _park('shutdown')
+        _park('shutdown' + self.sfx)
         self.accepting = False
         self._shut.set()
 
     def server_close(self):
         w = _CUR['world']
         w.closing = self
-        _park('server_close')
+        _park('server_close' + self.sfx)
         import pywbem._listener as L
         joins = (not getattr(L.ThreadedHTTPServer, 'daemon_threads', False)) and \
             getattr(L.ThreadedHTTPServer, 'block_on_close', True)
@@ -426,7 +427,8 @@ class CallbackRecorder:
         self.world, self.k = world, k
 
     def callback(self, indication, host):
-        w, k = self.world, self.k
+        w = self.world
+        k = w.pos[self.k]
         s = w.sched
         s.park('enter%d' % k)
         j, q = int(indication['Sender']), int(indication['Seq'])
@@ -451,6 +453,8 @@ class World:
         self.cur = {}                           # kind -> the server object created last
         self.closing = None
         self.https_port = (51000 + os.getpid() % 10000) if cfg.get('https') else None
+        self.http_port = (40000 + os.getpid() % 10000) if cfg.get('http', True) else None
+        self.full_log = []                      # queue-full warnings of the listener logger: True = "now full"
         self.notes = []
         self.put_seen = []                      # ((j,seq), queue was full) per put() on the real queue
         self.log = []                           # (callback index, j, seq)
@@ -458,25 +462,41 @@ class World:
         self.in_handler = [None] * self.n       # the server whose handler thread runs the request of sender j
         self.outcomes = []                      # (call, exception class name | None)
         self.after_call = []                    # snapshot after every returned/raised API call
-        self.listener = pywbem.WBEMListener('127.0.0.1', http_port=40000 + os.getpid() % 10000,
+        self.listener = pywbem.WBEMListener('127.0.0.1', http_port=self.http_port,
                                             https_port=self.https_port,
                                             certfile='cert.pem' if cfg.get('https') else None,
                                             keyfile='key.pem' if cfg.get('https') else None,
                                             max_ind_queue_size=cfg['maxQ'])
-        self.recorders = [self.make_callback(k) for k in range(cfg['ncb'])]
-        for r in self.recorders:
-            self.listener.add_callback(r.callback)
-        # "If the callback function is already known to the listener, it will not be added": register every
-        # callback again (fresh bound-method objects, other order) - the set of registered callbacks must not change
-        for r in reversed(self.recorders):
-            self.listener.add_callback(r.callback)
+        import logging
+        world = self
+
+        class FullLogHandler(logging.Handler):
+            def emit(self, record):
+                m = str(record.msg)
+                if m.startswith('Indication queue is now full'):
+                    world.full_log.append(True)
+                elif m.startswith('Indication queue is no longer full'):
+                    world.full_log.append(False)
+        self.listener.logger.addHandler(FullLogHandler(level=logging.WARNING))
+        # add_callback sequence: recorder ids, with repetitions ("If the callback function is already known to the
+        # listener, it will not be added"); every `rec.callback` is a fresh bound-method object.  The callback
+        # index in the log is the position by FIRST registration, computed here, not read from the listener.
+        ncb = cfg['ncb']
+        self.regs = list(cfg.get('regs') or (list(range(ncb)) + list(reversed(range(ncb)))))
+        self.recorders = [self.make_callback(k) for k in range(ncb)]
+        order = []
+        for r in self.regs:
+            if r not in order:
+                order.append(r)
+        self.pos = {rid: i for i, rid in enumerate(order)}
+        for r in self.regs:
+            self.listener.add_callback(self.recorders[r].callback)
+        self.registered = [getattr(getattr(cb, '__self__', None), 'k', -1) for cb in self.listener._callbacks]
         self.threads = []
 
-    def server_for(self, j):
-        """sender j talks to the HTTPS server when both are configured and j is odd"""
-        if not self.cfg.get('https'):
-            return self.servers[-1] if self.servers else None
-        return self.cur.get('https' if j % 2 else 'http')
+    def server_of(self, tls):
+        """the server object currently bound to the HTTP / HTTPS port"""
+        return self.cur.get('https' if tls else 'http')
 
     def ind_of(self, item):
         ind = item[0]
@@ -517,8 +537,8 @@ class World:
         seq = 0
         try:
             while True:
-                s.park('send')
-                srv = self.server_for(j)
+                cmd = s.park('send')
+                srv = self.server_of(cmd == 'tls')
                 if srv is None or not srv.accepting:
                     self.notes.append('request sent while no server accepts')
                     raise Abort()
@@ -579,7 +599,7 @@ class World:
         q = self.listener._ind_queue
         import queue as realq
         ql = realq.Queue.qsize(q) if q is not None else 0
-        return '%s|%s|%s|%d' % (m, c, snd, ql)
+        return '%s|%s|%s|%d%s' % (m, c, snd, ql, 'F' if self.listener._queue_full else '')
 
     def enabled(self, name, sending=False):
         """can the real thread `name` make a step now (used in free-running mode)"""
@@ -593,7 +613,7 @@ class World:
             if t.tag == 'join':
                 c = s.ts.get('cb')
                 return c is None or c.done or self.join_has_timeout
-            if t.tag == 'server_close':
+            if t.tag in ('server_close', 'server_close2'):
                 import pywbem._listener as L
                 joins = (not getattr(L.ThreadedHTTPServer, 'daemon_threads', False)) and \
                     getattr(L.ThreadedHTTPServer, 'block_on_close', True)
@@ -625,6 +645,8 @@ def label_thread(l):
         return 'main'
     if l.startswith('cb'):
         return 'cb'
+    if l.startswith('t'):
+        return 's' + l[1:]
     return l
 
 
@@ -652,9 +674,11 @@ def real_walk(w, res, walk):
             nm = 's%d' % j
             t = s.ts[nm]
             if t.tag == 'send':
-                srv = w.server_for(j)
-                if srv is not None and srv.accepting and len(w.responses[j]) < walk['perSender']:
-                    cands.append(nm)
+                if len(w.responses[j]) < walk['perSender']:
+                    for tls, lab in ((False, nm), (True, 't%d' % j)):
+                        srv = w.server_of(tls)
+                        if srv is not None and srv.accepting:
+                            cands.append(lab)
             elif w.enabled(nm):
                 cands.append(nm)
         if not cands:
@@ -671,6 +695,8 @@ def real_walk(w, res, walk):
             cmd = l
         elif l == 'cb!':
             cmd = 'raise'
+        elif l.startswith('t'):
+            cmd = 'tls'
         last = label_thread(l)
         s.step(last, cmd)
         res['trace'].append(l)
@@ -723,10 +749,15 @@ def run_real(cfg, labels, pcs, extra_calls=('start', 'stop'), walk=None):
                     cmd = l
                 elif l == 'cb!':
                     cmd = 'raise'
+                elif l.startswith('t'):
+                    cmd = 'tls'
                 else:
                     cmd = None
+                if name != 'main' and name != 'cb' and l.startswith('t') and t.tag != 'send':
+                    res['diverged'] = {'step': i, 'label': l, 'why': 'sender is at %s' % t.tag, 'real': w.vector()}
+                    break
                 if name != 'main' and name != 'cb' and t.tag == 'send':
-                    srv = w.server_for(j_of(name))
+                    srv = w.server_of(l.startswith('t'))
                     if srv is None or not srv.accepting:
                         res['diverged'] = {'step': i, 'label': l, 'why': 'no accepting server', 'real': w.vector()}
                         break
@@ -774,6 +805,8 @@ def run_real(cfg, labels, pcs, extra_calls=('start', 'stop'), walk=None):
             'main_tag': mt.tag,
             'stuck_senders': [j for j in range(w.n) if w.in_handler[j] is not None],
             'put_seen': [[list(a), b] for a, b in w.put_seen],
+            'full_log': list(w.full_log),
+            'regs': list(w.regs), 'registered': list(w.registered),
             'notes': list(w.notes),
             'final_vector': w.vector(),
         })
@@ -875,8 +908,24 @@ def oracle(cfg, obs):
 
 # --------------------------------------------------------------------------- schedules from the model
 
+def ports_of(cfg):
+    h, t = cfg.get('http', True), cfg.get('https', False)
+    return '' if (h and not t) else ('-both' if (h and t) else ('-https' if t else '-noport'))
+
+
+def with_regs(cfg, rng):
+    """a random add_callback sequence over the cfg['ncb'] distinct callbacks: every one at least once, repeats
+    and any order"""
+    m = cfg['ncb']
+    regs = list(range(m)) + [rng.randrange(m) for _ in range(rng.choice([0, 1, 2, 4]))]
+    rng.shuffle(regs)
+    cfg['regs'] = regs
+    return cfg
+
+
 def cfg_json(cfg):
-    return {'proto': 'fixed', 'maxQ': cfg['maxQ'], 'ncb': cfg['ncb'], 'n': cfg['n']}
+    return {'proto': 'fixed', 'maxQ': cfg['maxQ'], 'ncb': cfg['ncb'], 'n': cfg['n'],
+            'http': bool(cfg.get('http', True)), 'https': bool(cfg.get('https', False))}
 
 
 def model_view(final):
@@ -887,14 +936,16 @@ def model_view(final):
         resp[j][q] = 'ok'
     for (j, q) in final['refused']:
         resp[j][q] = 'err'
-    return {'log': [list(x) for x in final['log']], 'responses': resp, 'errs': final['errs']}
+    return {'log': [list(x) for x in final['log']], 'responses': resp, 'errs': final['errs'],
+            'fullLog': list(final.get('fullLog', []))}
 
 
 def real_view(obs):
     nm = obs['n_model_calls']
     return {'log': obs['log'],
             'responses': [[r[0] for r in rs] for rs in obs['responses']],
-            'errs': [e for (_, e) in obs['outcomes'][:nm] if e is not None]}
+            'errs': [e for (_, e) in obs['outcomes'][:nm] if e is not None],
+            'fullLog': obs.get('full_log', [])}
 
 
 def work(item):
@@ -924,9 +975,9 @@ def gen_real_walks(rng, n, thorough=False, https=False):
     out = []
     for _ in range(n):
         cfg = {'n': rng.choice([1, 2, 2, 3]), 'maxQ': rng.choice([0, 0, 1, 2]), 'ncb': rng.choice([1, 1, 2])}
-        if https:
-            cfg['n'] = rng.choice([2, 2, 3, 4])     # even senders -> HTTP server, odd senders -> HTTPS server
-            cfg['https'] = True
+        ports = 'both' if https else rng.choice(['http', 'http', 'both', 'https'])
+        cfg['http'], cfg['https'] = ports != 'https', ports != 'http'
+        with_regs(cfg, rng)
         out.append((cfg, {'seed': rng.randrange(1 << 60), 'maxlen': rng.choice([30, 60, 100, 160]),
                           'perSender': rng.choice([1, 2, 3, 4]), 'starts': rng.choice([1, 1, 2, 3]),
                           'sticky': rng.choice([0, 40, 70, 90])}))
@@ -939,6 +990,7 @@ def judge_walk(run, cfg, walk, obs, model):
     if 'crash' in obs:
         run.disagree(case, None, obs, 'harness crashed while driving the real code')
         return
+    note_regs(run, obs)
     if obs['hang']:
         run.disagree(case, None, obs['hang'], 'hang')
     elif model is not None:
@@ -949,7 +1001,7 @@ def judge_walk(run, cfg, walk, obs, model):
             bad = next((i for i, (a, b) in enumerate(zip(obs['vectors'], model['pcs'])) if a != b), None)
             mv = model_view(model['final'])
             rv = {'log': obs['log'], 'responses': [[r[0] for r in rs] for rs in obs['responses']],
-                  'errs': [e for (_, e) in obs['outcomes'] if e is not None]}
+                  'errs': [e for (_, e) in obs['outcomes'] if e is not None], 'fullLog': obs.get('full_log', [])}
             if bad is not None:
                 run.disagree(case, model['pcs'][bad], {'step': bad, 'real': obs['vectors'][bad]},
                              'position vector on a real-driven schedule')
@@ -970,12 +1022,20 @@ def enum_plan(run):
     c111 = {'n': 1, 'maxQ': 0, 'ncb': 1}
     plan = [
         # the smallest configuration: ALL complete schedules (138 511, any number of preemptions) in the
-        # thorough tier, all with <= 4 preemptions (5 853) in the quick tier
-        (c111, 1, 1, 64 if th else 4, None, 0),
+        # thorough tier; in the quick tier all with <= 3 preemptions (1 356) and a random window of 1 500 of the
+        # 5 853 with <= 4
+        (c111, 1, 1, 64 if th else 3, None, 0),
+    ] + ([] if th else [(c111, 1, 1, 4, 1500, rng.randrange(4300))]) + [
         ({'n': 1, 'maxQ': 0, 'ncb': 2}, 2, 2, 2, 2000 if th else 400, 0 if th else rng.randrange(300)),
         ({'n': 1, 'maxQ': 1, 'ncb': 1}, 2, 1, 2, 2000 if th else 300, 0 if th else rng.randrange(100)),
         ({'n': 2, 'maxQ': 0, 'ncb': 1}, 1, 1, 2, 1700 if th else 400, 0 if th else rng.randrange(1200)),
         ({'n': 2, 'maxQ': 1, 'ncb': 1}, 1, 1, 2, 1700 if th else 300, 0 if th else rng.randrange(1200)),
+        # both ports: two servers stopped one after the other, a sender picks the port per request
+        ({'n': 1, 'maxQ': 0, 'ncb': 1, 'http': True, 'https': True}, 1, 1, 2, 3000 if th else 400,
+         0 if th else rng.randrange(300)),
+        ({'n': 2, 'maxQ': 1, 'ncb': 1, 'http': True, 'https': True}, 1, 1, 2, 4000 if th else 300,
+         0 if th else rng.randrange(3000)),
+        ({'n': 1, 'maxQ': 0, 'ncb': 1, 'http': False, 'https': True}, 1, 1, 2, 600 if th else 150, 0),
     ]
     if th:
         plan += [
@@ -994,6 +1054,9 @@ def walk_requests(run, n):
         cfg = {'n': rng.choice([1, 2, 2, 3, 3]), 'maxQ': rng.choice([0, 0, 1, 2, 3]), 'ncb': rng.choice([1, 1, 2])}
         if thorough and rng.random() < 0.1:
             cfg = {'n': rng.choice([4, 5]), 'maxQ': rng.choice([0, 2, 5]), 'ncb': rng.choice([1, 2, 3])}
+        ports = rng.choice(['http', 'http', 'both', 'both', 'https'])
+        cfg['http'], cfg['https'] = ports != 'https', ports != 'http'
+        with_regs(cfg, rng)
         reqs.append((cfg, {'op': 'walk', 'cfg': cfg_json(cfg), 'seed': rng.randrange(1 << 60),
                            'maxlen': rng.choice([25, 40, 60, 90, 140]),
                            'perSender': rng.choice([1, 2, 3, 3, 5 if thorough else 3]),
@@ -1006,7 +1069,8 @@ def schedule_batches(run):
     """yields lists [(cfg, labels, pcs, model_final, origin)] of at most BATCH schedules from the model driver"""
     for (cfg, per, starts, pb, cap, skip) in enum_plan(run):
         done = 0
-        key = 'enum-traces:n%d-q%d-cb%d-x%d-s%d-pb%d' % (cfg['n'], cfg['maxQ'], cfg['ncb'], per, starts, pb)
+        key = 'enum-traces:n%d-q%d-cb%d-x%d-s%d-pb%d%s' % (cfg['n'], cfg['maxQ'], cfg['ncb'], per, starts, pb,
+                                                            ports_of(cfg))
         while True:
             page = BATCH if cap is None else min(BATCH, cap - done)
             if page <= 0:
@@ -1031,7 +1095,7 @@ def schedule_batches(run):
                 if cap is None:
                     run.count('enum-complete(all schedules with <= %d preemptions):n%d-x%d-cb%d' % (pb, cfg['n'], per, cfg['ncb']), done)
                 break
-    nwalk = 30000 if run.thorough else 2500
+    nwalk = 30000 if run.thorough else 1800
     while nwalk > 0:
         reqs = walk_requests(run, min(BATCH, nwalk))
         nwalk -= len(reqs)
@@ -1058,11 +1122,32 @@ def shrink_case(cfg, labels, kind):
     return common.shrink_list(labels, fails, max_rounds=60)
 
 
+def note_regs(run, obs):
+    d = run.extra.setdefault('_regs', {})
+    d.setdefault(tuple(obs['regs']), obs['registered'])
+
+
+def check_regs(run):
+    """add_callback: the model's `registered regs` against the real listener._callbacks (as recorder ids)"""
+    d = run.extra.pop('_regs', {})
+    if not d:
+        return
+    keys = sorted(d)
+    ans = common.run_driver(PROP, [{'op': 'reg', 'regs': list(k)} for k in keys])
+    for k, a in zip(keys, ans):
+        run.count('add_callback-sequences')
+        if len(set(k)) < len(k):
+            run.count('add_callback-sequences-with-repeats')
+        if a.get('registered') != d[k]:
+            run.disagree({'regs': list(k)}, a.get('registered'), d[k], 'add_callback: registered callbacks')
+
+
 def judge(run, cfg, labels, pcs, final, obs, origin):
     case = {'cfg': cfg, 'labels': labels}
     if 'crash' in obs:
         run.disagree(case, None, obs, 'harness crashed while driving the real code')
         return
+    note_regs(run, obs)
     mv, rv = model_view(final), real_view(obs)
     if obs['diverged']:
         run.disagree(case, obs['diverged'].get('model'), obs['diverged'], 'real threads left the model schedule')
@@ -1088,6 +1173,7 @@ def judge(run, cfg, labels, pcs, final, obs, origin):
 
 def stats(run, cfg, labels, final, obs, origin):
     run.count('origin:' + origin)
+    run.count('ports:' + (ports_of(cfg)[1:] or 'http'))
     run.count('senders:%d' % cfg['n'])
     run.count('callbacks:%d' % cfg['ncb'])
     run.count('queue:' + ('unbounded' if cfg['maxQ'] == 0 else 'bounded'))
@@ -1143,7 +1229,7 @@ def run(run):
     _register_module()
     check_source_facts(run)
     run.rule = ('schedules of the Lean model (ALL complete schedules of the 1 sender x 1 indication x 1 callback x 1 cycle '
-                'configuration in the thorough tier (those with <= 4 preemptions in the quick tier), systematic '
+                'configuration in the thorough tier (those with <= 3 preemptions + a window of those with <= 4 in the quick tier), systematic '
                 'enumeration with preemption bound 2-3 for 1-3 senders x 1-2 indications, and seeded random walks with 1-5 senders, 1-5 indications each, 1-3 callbacks, queue '
                 'bound 0/1/2/3/5, 1-3 start()/stop() cycles, raising callbacks) replayed step by step on the real '
                 'WBEMListener under a deterministic scheduler; distinct = distinct (config, label sequence); '
@@ -1155,8 +1241,8 @@ def run(run):
         'during K the OS scheduler, sockets/ports and the HTTP server object are replaced by the harness '
         '(FakeServer, in-memory request streams); only the loopback smoke pass uses real ones',
         'time is abstracted: a queue.get(timeout) may time out whenever the queue is empty; sleep() returns at once',
-        'the Lean model has ONE server; listeners with both an HTTP and an HTTPS port are covered by real-driven '
-        'schedules with two FakeServers (oracle only, ssl context replaced) and by loopback scenarios with real TLS',
+        'HTTP and HTTPS server are two FakeServers in K (ssl context replaced by a pass-through); real TLS only in the '
+        'loopback scenarios',
         'not modelled: start() failure path (_stop_indication_delivery(immediate=True)), '
         '_queue_full log flag, BaseException (non-Exception) raised by a callback',
     ]
@@ -1180,7 +1266,7 @@ def run(run):
             break
     run.extra['real_wall_s'] = round(real_wall, 1)
     # schedules chosen from the REAL enabledness (not filtered by the model): the model must follow them
-    walks = gen_real_walks(run.rng, 20000 if run.thorough else 1200, run.thorough)
+    walks = gen_real_walks(run.rng, 20000 if run.thorough else 900, run.thorough)
     t0 = time.time()
     wres = common.pmap(work_walk, walks, chunksize=16)
     run.extra['real_walk_wall_s'] = round(time.time() - t0, 1)
@@ -1198,20 +1284,26 @@ def run(run):
             if any(r and r[0] == 'err' for rs in obs['responses'] for r in rs):
                 run.count('with-refusal')
         judge_walk(run, cfg, wk, obs, model)
-    # listener with BOTH an HTTP and an HTTPS port (two server objects, each joining its own handler threads):
-    # real-driven schedules, oracle only (the Lean model has one server)
-    walks2 = gen_real_walks(run.rng, 8000 if run.thorough else 700, run.thorough, https=True)
+    # listener with BOTH an HTTP and an HTTPS port: real-driven schedules, the two-server model must follow
+    walks2 = gen_real_walks(run.rng, 8000 if run.thorough else 500, run.thorough, https=True)
     t0 = time.time()
-    for (cfg, wk), obs in zip(walks2, common.pmap(work_walk, walks2, chunksize=16)):
+    wres2 = common.pmap(work_walk, walks2, chunksize=16)
+    ok2 = [(cfg, wk, obs) for (cfg, wk), obs in zip(walks2, wres2) if 'crash' not in obs]
+    models2 = common.run_driver(PROP, [{'op': 'run', 'cfg': cfg_json(cfg), 'labels': obs['trace']}
+                                       for cfg, wk, obs in ok2]) if ok2 else []
+    mi2 = iter(models2)
+    for (cfg, wk), obs in zip(walks2, wres2):
+        model = next(mi2) if 'crash' not in obs else None
         run.case({'cfg': cfg, 'labels': ' '.join(obs.get('trace', [])), 'real': True, 'both-ports': True},
                  nontrivial=bool(obs.get('log')))
         run.count('origin:real-walk-both-ports')
         if 'crash' not in obs:
             run.count('steps', len(obs['trace']))
-            if any(r and r[0] == 'ok' for rs in obs['responses'][1::2] for r in rs):
-                run.count('both-ports:acked-over-https')
-        judge_walk(run, cfg, wk, obs, None)
+            if any(l.startswith('t') for l in obs['trace']):
+                run.count('both-ports:requests-over-https')
+        judge_walk(run, cfg, wk, obs, model)
     run.extra['both_ports_wall_s'] = round(time.time() - t0, 1)
+    check_regs(run)
     smoke(run)
 
 
